@@ -272,6 +272,8 @@ def diagnose(c, o, clause):
                     return "merge-flattened-deep"
         if e in ("array-expected", "token-not-optional", "invalid-value-none"):
             names = set(re.findall(r"for token (\w+)", why)) | set(re.findall(r"Token (\w+) is not optional", why))
+            if e == "array-expected" and any(_links_named(c, k, lambda l: _SINGLE_LM(l) and l.get("pv")) for k in names):
+                return "single-array-source-linkmerge-unwrapped"     # the step-input form: the pick returns an element
             if e == "array-expected" and any(_links_named(c, k, lambda l: l.get("lm") == "merge_flattened") for k in names):
                 return "merge-flattened-deep"
             if e != "array-expected" and any(
@@ -872,8 +874,8 @@ ERRCLASSES = [
     ("is not optional", "token-not-optional"),
     ("Invalid value None for token", "invalid-value-none"),
     ("invalid literal for int()", "tag-int-valueerror"),
-    ("it should be an array", "array-expected"),
     ("No suitable token processors", "no-suitable-token-processor"),
+    ("it should be an array", "array-expected"),
     ("is incompatible", "static-checker-incompatible"),
     ("ValidationException", "static-checker-incompatible"),
     ("All sources are null", "all-sources-null"),
